@@ -124,7 +124,7 @@ Inductive ev :=
 | EStLoad (a u : nat) (site : nat) (v : Z)
 | ELinkSt (tgt j : nat) (ext : bool)
 | ELinkLd (u : nat) (l : option nat)
-| ECb (u : nat) (k : cbk)
+| ECb (u : nat) (k : cbk) (other : option nat)   (* other: the unit resumed by a resume_*_to primitive *)
 | EFutexRes (u j : nat)                    (* terminating unit u wakes its external joiner j *)
 | ENb (p : nat) (inc : bool) (old : Z) (u : nat)
 | EStart (u : nat) | EFinish (u : nat)
@@ -176,6 +176,8 @@ Definition step (s : st) (e : ev) : option st :=
       let r := un s u in
       match ust r with
       | UNone | UCreated | UTerm => Some (set_u s u (with_pool r p))
+      | UPopped => (* ABT_pool_push_thread of a unit obtained by a user-level pop re-associates it *)
+          Some (set_u s u (with_pool r p))
       | _ => if Nat.eqb (migs r) 2 then
                match migt r with
                | Some t => if Nat.eqb t p then Some (set_u s u (with_mig (with_pool r p) (migt r) 3)) else None
@@ -187,7 +189,7 @@ Definition step (s : st) (e : ev) : option st :=
       let r := un s u in
       if Nat.eqb (upool r) p && Nat.eqb (migs r) 0 then
         let ok := match ust r with
-                  | UCreated | UResuming => true
+                  | UCreated | UResuming | UPopped => true
                   | UCbS k 2 => yield_kind k
                   | _ => false
                   end in
@@ -274,12 +276,14 @@ Definition step (s : st) (e : ev) : option st :=
       if Nat.eqb (migs r) 0 then
         match v, ust r with
         | 1%Z, UChecked => Some (set_u s u (with_ust_ost r URunning 1))
-        | 1%Z, UBlocked => (* join hand-off: the terminating unit on the same stream jumps to its joiner *)
+        | 1%Z, UBlocked => (* join hand-off / resume_*_to: the caller jumps to a blocked unit *)
+            Some (set_u s u (with_ust_ost r URunning 1))
+        | 1%Z, UPopped | 1%Z, UCreated => (* yield_to / create_to / revive_to / exit_to: run without a request check *)
             Some (set_u s u (with_ust_ost r URunning 1))
         | 0%Z, UCbS k 1 => if yield_kind k then Some (set_u s u (with_ust_ost r (UCbS k 2) 0)) else None
         | 0%Z, UBlocked => Some (set_u s u (with_ust_ost r UResuming 0))
         | 2%Z, UCbS k 2 => if suspend_kind k then Some (set_u s u (with_ust_ost r UBlocked 2)) else None
-        | 3%Z, UCbS KExit _ => Some (set_u s u (with_ust_ost r UTerm 3))
+        | 3%Z, UCbS KExit _ | 3%Z, UCbS KResumeExitTo _ => Some (set_u s u (with_ust_ost r UTerm 3))
         | 3%Z, UCancelling => if jw_settled (un s) (jw r) || negb (isult r)
                               then Some (set_u s u (with_ust_ost r UTerm 3)) else None
         | 3%Z, UFinished => (* tasklet: terminated by the scheduler right after its function returned *)
@@ -309,11 +313,25 @@ Definition step (s : st) (e : ev) : option st :=
         | _, _, _ => None
         end
       else None
-  | ECb u k =>
+  | ECb u k other =>
       let r := un s u in
       match k, ust r with
-      | KExit, UFinished => if jw_settled (un s) (jw r) then Some (set_u s u (with_ust r (UCbS KExit 0))) else None
-      | KExit, _ => None
+      | KExit, UFinished | KResumeExitTo, UFinished =>
+          if jw_settled (un s) (jw r) then Some (set_u s u (with_ust r (UCbS k 0))) else None
+      | KExit, _ | KResumeExitTo, _ => None
+      | KResumeSuspendTo, URunning =>
+          (* same pool: no counter update; the count held for the resumed unit now stands for the caller *)
+          match other with
+          | Some o =>
+              let ro := un s o in
+              if Nat.eqb (upool r) (upool ro) then
+                if inb (upool r) (cnt ro) then
+                  Some (mkS (upd (upd (un s) o (with_cnt ro (remove1 (upool r) (cnt ro))))
+                                 u (with_cnt (with_ust r (UCbS k 1)) (upool r :: cnt r))) (po s) (seen s))
+                else None
+              else Some (set_u s u (with_ust r (UCbS k 0)))
+          | None => None
+          end
       | _, URunning => Some (set_u s u (with_ust r (UCbS k 0)))
       | _, _ => None
       end
@@ -333,6 +351,10 @@ Definition step (s : st) (e : ev) : option st :=
               if suspend_kind k && Nat.eqb (upool r) p then
                 Some (mkS (upd (un s) u (with_cnt (with_ust r (UCbS k 1)) (p :: cnt r)))
                           (upd (po s) p (mkP (q pr) (old + 1))) (seen s))
+              else None
+          | URunning => (* ABT_thread_yield_to: the caller pre-increments its own pool *)
+              if Nat.eqb (upool r) p then
+                Some (mkS (upd (un s) u (with_cnt r (p :: cnt r))) (upd (po s) p (mkP (q pr) (old + 1))) (seen s))
               else None
           | _ => None
           end
